@@ -131,6 +131,8 @@ def rop_term(op, st):
         return "ROpMetaSet"
     if k == 'metaclear':
         return "ROpMetaClear"
+    if k == 'metaop':
+        return "ROpMetaSet" if op['method'] in ('update', 'setitem') else "ROpMetaPop"
     raise ValueError(k)
 
 
